@@ -76,7 +76,7 @@ def body(ctx):
             raise vf.InfraError("Apalache: HeapInv is not inductive (%s)\n%s" % (init, r["out"]))
     exe = vf.build("none", "none", extra_flags=["-march=native"], extra_srcs=["alloc_tu.cpp"])
     rng = ctx.rng
-    nh, nops = ctx.q(48, 2000), ctx.q(50, 50)
+    nh, nops = ctx.q(48, 8000), ctx.q(50, 50)
     traces = []
     allplans = []
     per = ctx.q(6, 25)
